@@ -65,12 +65,20 @@ func (sess *UserSession) Copy(numSet imap.NumSet, destName string) (*imap.CopyDa
 		}
 	}
 
-	var sourceUIDs, destUIDs imap.UIDSet
+	// Snapshot the messages under the source mailbox's lock and append them to
+	// the destination after releasing it: taking the destination's lock while
+	// holding the source's deadlocks with a copy in the opposite direction.
+	var snapshots []msgSnapshot
 	sess.mailbox.forEach(numSet, func(seqNum uint32, msg *message) {
-		appendData := dest.copyMsg(msg)
-		sourceUIDs.AddNum(msg.uid)
-		destUIDs.AddNum(appendData.UID)
+		snapshots = append(snapshots, msg.snapshot())
 	})
+
+	var sourceUIDs, destUIDs imap.UIDSet
+	for _, snap := range snapshots {
+		appendData := dest.appendBytes(snap.buf, &snap.options)
+		sourceUIDs.AddNum(snap.uid)
+		destUIDs.AddNum(appendData.UID)
+	}
 
 	if len(sourceUIDs) == 0 {
 		// No message was copied: there is no COPYUID to report
@@ -99,17 +107,27 @@ func (sess *UserSession) Move(w *imapserver.MoveWriter, numSet imap.NumSet, dest
 		}
 	}
 
+	// Same as Copy: never hold the source mailbox's lock while taking the
+	// destination's. The messages are snapshotted under the source lock, appended
+	// to the destination without it, then expunged from the source (messages
+	// expunged by someone else in between are simply not found anymore).
+	var snapshots []msgSnapshot
+	expunged := make(map[*message]struct{})
+	sess.mailbox.forEach(numSet, func(seqNum uint32, msg *message) {
+		snapshots = append(snapshots, msg.snapshot())
+		expunged[msg] = struct{}{}
+	})
+
+	var sourceUIDs, destUIDs imap.UIDSet
+	for _, snap := range snapshots {
+		appendData := dest.appendBytes(snap.buf, &snap.options)
+		sourceUIDs.AddNum(snap.uid)
+		destUIDs.AddNum(appendData.UID)
+	}
+
 	sess.mailbox.mutex.Lock()
 	defer sess.mailbox.mutex.Unlock()
 
-	var sourceUIDs, destUIDs imap.UIDSet
-	expunged := make(map[*message]struct{})
-	sess.mailbox.forEachLocked(numSet, func(seqNum uint32, msg *message) {
-		appendData := dest.copyMsg(msg)
-		sourceUIDs.AddNum(msg.uid)
-		destUIDs.AddNum(appendData.UID)
-		expunged[msg] = struct{}{}
-	})
 	// The EXPUNGE updates are queued for every session of the mailbox,
 	// including this one: they are sent when the command completes.
 	sess.mailbox.expungeLocked(expunged)
